@@ -32,6 +32,7 @@ enum { OP_RETAIN = 1, OP_RELEASE = 2, OP_ENTER = 3, OP_LEAVE = 4, OP_NOTIFY = 5,
 	OP_IRETAIN = 9, OP_IRELEASE = 10, OP_WEAK = 11 };
 
 static _Atomic int fin_runs, fin_ctx_id, fin_queue_id, delivered, items_run, specific_dtor_runs;
+static _Atomic long progress;   // bumped by every callout: the no-progress watchdogs below look at it
 static char ctxbuf[16]; static char qkey;
 static dispatch_queue_t tq5, tq6, nq;
 
@@ -39,16 +40,16 @@ static int current_queue_id(void) { return (int)(intptr_t)dispatch_get_specific(
 static void finalizer(void *ctx) {
 	atomic_store(&fin_ctx_id, (int)((char *)ctx - ctxbuf));
 	atomic_store(&fin_queue_id, current_queue_id());
-	atomic_fetch_add(&fin_runs, 1);
+	atomic_fetch_add(&fin_runs, 1); atomic_fetch_add(&progress, 1);
 }
-static void notif_fn(void *ctx) { (void)ctx; atomic_fetch_add(&delivered, 1); }
-static void item_fn(void *ctx) { (void)ctx; atomic_fetch_add(&items_run, 1); }
-static void work_fn(void *ctx) { (void)ctx; usleep(200); }
-static void specific_dtor(void *v) { (void)v; atomic_fetch_add(&specific_dtor_runs, 1); }
+static void notif_fn(void *ctx) { (void)ctx; atomic_fetch_add(&delivered, 1); atomic_fetch_add(&progress, 1); }
+static void item_fn(void *ctx) { (void)ctx; atomic_fetch_add(&items_run, 1); atomic_fetch_add(&progress, 1); }
+static void work_fn(void *ctx) { (void)ctx; usleep(200); atomic_fetch_add(&progress, 1); }
+static void specific_dtor(void *v) { (void)v; atomic_fetch_add(&specific_dtor_runs, 1); atomic_fetch_add(&progress, 1); }
 static void nop(void *c) { (void)c; }
 static _Atomic int cancel_done;
-static void cancel_done_fn(void *c) { (void)c; atomic_fetch_add(&cancel_done, 1); }
-static void suspend_self_fn(void *q) { atomic_fetch_add(&items_run, 1); dispatch_suspend((dispatch_queue_t)q); }
+static void cancel_done_fn(void *c) { (void)c; atomic_fetch_add(&cancel_done, 1); atomic_fetch_add(&progress, 1); }
+static void suspend_self_fn(void *q) { dispatch_suspend((dispatch_queue_t)q); atomic_fetch_add(&items_run, 1); atomic_fetch_add(&progress, 1); }
 
 // The memory of the group under test is never handed back to malloc: the harness can then tell exactly whether the library
 // released it (freed_flag) without reading freed memory, and in stress mode the tracked address range is never reused by
@@ -59,7 +60,24 @@ extern void __libc_free(void *);
 void free(void *p) { if (p && p == quarantined) { atomic_store(&freed_flag, 1); return; } __libc_free(p); }
 #endif
 
-// wait until the refcount words of the given objects are stable (drains on worker threads finish asynchronously)
+// Quiescence is CONDITION based, never a timing window: the driver passes, for every call of a script, the counts the model
+// expects at the next quiescent point; after the barriers below the harness waits until the words have those values
+// (a drainer's final release on a worker thread may still be a few instructions away) and gives up only when NOTHING has
+// moved for NOPROGRESS_S seconds (then it reports what it sees, which the driver flags).  `progress` is bumped by every
+// callout (finalizer, notification, item, destructor, cancel handler).
+#define NOPROGRESS_S 4.0
+static double now_s(void) { struct timespec ts; clock_gettime(CLOCK_MONOTONIC, &ts); return (double)ts.tv_sec + 1e-9 * (double)ts.tv_nsec; }
+static void settle_to(volatile int *a, int wa, volatile int *b, int wb) {
+	int la = a ? *a : 0, lb = b ? *b : 0; long lp = atomic_load(&progress); double t0 = now_s();
+	for (;;) {
+		int ca = a ? *a : 0, cb = b ? *b : 0; long cp = atomic_load(&progress);
+		if ((!a || ca == wa) && (!b || cb == wb)) return;
+		if (ca != la || cb != lb || cp != lp) { la = ca; lb = cb; lp = cp; t0 = now_s(); }
+		else if (now_s() - t0 > NOPROGRESS_S) return;
+		usleep(100);
+	}
+}
+// without expectations (first contact with an object whose history is unknown): until nothing has changed for a while
 static void settle2(volatile int *a, volatile int *b) {
 	int stable = 0, la = a ? *a : 0, lb = b ? *b : 0;
 	for (int k = 0; k < 4000 && stable < 10; k++) {
@@ -68,15 +86,30 @@ static void settle2(volatile int *a, volatile int *b) {
 		if (ca == la && cb == lb) stable++; else { stable = 0; la = ca; lb = cb; }
 	}
 }
-static void wait_for(_Atomic int *v, int want) { for (int k = 0; k < 25000 && atomic_load(v) < want; k++) usleep(100); }   // 2.5 s
+// wait for a callout to have happened; gives up only after NOPROGRESS_S seconds without any callout anywhere
+static void wait_for(_Atomic int *v, int want) {
+	long lp = atomic_load(&progress); int lv = atomic_load(v); double t0 = now_s();
+	while (atomic_load(v) < want) {
+		long cp = atomic_load(&progress); int cv = atomic_load(v);
+		if (cp != lp || cv != lv) { lp = cp; lv = cv; t0 = now_s(); } else if (now_s() - t0 > NOPROGRESS_S) return;
+		usleep(100);
+	}
+}
+// expectations: "a:b:c[:d];a:b:c[:d];..." one group per call
+static int parse_exp(const char *e, int k, int out[4]) {
+	if (!e || !*e) return 0;
+	for (int i = 0; i < k; i++) { e = strchr(e, ';'); if (!e) return 0; e++; }
+	out[3] = 0;
+	return sscanf(e, "%d:%d:%d:%d", &out[0], &out[1], &out[2], &out[3]) >= 3;
+}
 
-static void run_group_script(const char *ops) {
+static void run_group_script(const char *ops, const char *exp) {
 	dispatch_group_t g = dispatch_group_create(); quarantined = g; atomic_store(&freed_flag, 0);
 	atomic_store(&fin_runs, 0); atomic_store(&fin_ctx_id, 0); atomic_store(&fin_queue_id, -1); atomic_store(&delivered, 0);
 	long x = 1, in = 0, enters = 0, pend = 0, asyncs = 0; int hasfin = 0, ctxid = 0;   // harness-side bookkeeping of what it holds
 	settle2(&nq->do_ref_cnt, NULL); int nqbase = nq->do_ref_cnt;   // groups leaked by earlier scripts with pending notifications keep theirs
-	printf("G");
-	for (const char *p = ops; *p; p++) {
+	printf("G"); int opno = 0;
+	for (const char *p = ops; *p; p++, opno++) {
 		switch (*p) {
 		case 'c': p++; ctxid = *p - '0'; dispatch_set_context(g, ctxbuf + ctxid); break;
 		case 'C': ctxid = 0; dispatch_set_context(g, NULL); break;
@@ -102,7 +135,12 @@ static void run_group_script(const char *ops) {
 		}
 		int alive = (x > 0) || (in > 0) || (enters > 0) || (pend > 0);
 		dispatch_sync_f(nq, NULL, nop);    // notification blocks submitted so far have run; then wait for the drainer's last release
-		settle2((alive && !atomic_load(&freed_flag)) ? &g->do_ref_cnt : NULL, &nq->do_ref_cnt);
+		int ex[4];
+		if (parse_exp(exp, opno, ex)) {
+			if (ex[0] == -77) { for (double t0 = now_s(); !atomic_load(&freed_flag) && now_s() - t0 < NOPROGRESS_S;) usleep(100);   // the model says: released
+				settle_to(NULL, 0, &nq->do_ref_cnt, nqbase + ex[2]); }
+			else settle_to((alive && !atomic_load(&freed_flag)) ? &g->do_ref_cnt : NULL, ex[1], &nq->do_ref_cnt, nqbase + ex[2]);
+		} else settle2((alive && !atomic_load(&freed_flag)) ? &g->do_ref_cnt : NULL, &nq->do_ref_cnt);
 		if (alive && !atomic_load(&freed_flag) && g->do_vtable != NULL) printf(" %d %d %d %d", g->do_xref_cnt, g->do_ref_cnt, nq->do_ref_cnt - nqbase, atomic_load(&delivered));
 		else printf(" -77 -77 %d %d", nq->do_ref_cnt - nqbase, atomic_load(&delivered));
 		fflush(stdout);
@@ -113,14 +151,14 @@ static void run_group_script(const char *ops) {
 	fflush(stdout);
 }
 
-static void run_lane_script(const char *ops) {
+static void run_lane_script(const char *ops, const char *exp) {
 	dispatch_queue_t q = dispatch_queue_create_with_target("c17.q", NULL, tq5), qi = NULL, kids[16]; int nk = 0;
 	dispatch_source_t src = NULL; dispatch_object_t shown; shown._dq = q;
 	atomic_store(&fin_runs, 0); atomic_store(&fin_ctx_id, 0); atomic_store(&fin_queue_id, -1); atomic_store(&items_run, 0);
 	atomic_store(&specific_dtor_runs, 0);
 	long x = 1, susp = 0; int hasfin = 0; static char skey;
-	printf("L");
-	for (const char *p = ops; *p; p++) {
+	printf("L"); int opno = 0;
+	for (const char *p = ops; *p; p++, opno++) {
 		switch (*p) {
 		case 'r': dispatch_retain(q); x++; break;
 		case 'R': dispatch_release(q); x--; break;
@@ -152,7 +190,10 @@ static void run_lane_script(const char *ops) {
 		// deterministic quiescence: a barrier through every queue that can run (items submitted so far have run and the drain
 		// lock is free again); what is left is the drainer's final release, a few instructions later: settle2
 		if (alive && susp == 0) { for (int k = 0; k < nk; k++) dispatch_sync_f(kids[k], NULL, nop); dispatch_sync_f(q, NULL, nop); }
-		settle2(alive ? &q->do_ref_cnt : NULL, (shown._dq != q) ? &shown._do->do_ref_cnt : NULL);
+		int ex[4];
+		if (parse_exp(exp, opno, ex) && ex[1] >= 0)
+			settle_to(alive ? &q->do_ref_cnt : NULL, ex[1], (shown._dq != q && ex[3] >= 0) ? &shown._do->do_ref_cnt : NULL, ex[3]);
+		else settle2(alive ? &q->do_ref_cnt : NULL, (shown._dq != q) ? &shown._do->do_ref_cnt : NULL);
 		// two pairs: the queue q, and the object in focus (source / inactive queue) or q again
 		if (alive) printf(" %d %d", q->do_xref_cnt, q->do_ref_cnt); else printf(" -77 -77");
 		if (shown._dq != q) printf(" %d %d", shown._do->do_xref_cnt, shown._do->do_ref_cnt); else printf(" -78 -78");
@@ -287,11 +328,11 @@ int main(int argc, char **argv) {
 	nq = dispatch_queue_create("c17.nq", NULL);
 	if (argc > 1 && !strcmp(argv[1], "stress"))
 		return stress(argc > 2 ? strtoull(argv[2], 0, 10) : 1, argc > 3 ? atoi(argv[3]) : 20, argc > 4 ? atoi(argv[4]) : 150);
-	char line[1 << 14];
+	static char line[1 << 15];
 	while (fgets(line, sizeof line, stdin)) {
-		char kind; char ops[1 << 13];
-		if (sscanf(line, " %c %8000s", &kind, ops) != 2) continue;
-		if (kind == 'G') run_group_script(ops); else if (kind == 'L') run_lane_script(ops);
+		char kind; static char ops[1 << 13], exp[1 << 13]; exp[0] = 0;
+		if (sscanf(line, " %c %8000s %8000s", &kind, ops, exp) < 2) continue;
+		if (kind == 'G') run_group_script(ops, exp); else if (kind == 'L') run_lane_script(ops, exp);
 	}
 	return 0;
 }
